@@ -270,6 +270,9 @@ func init() {
 				if i%2 == 0 {
 					c.S["shape"] = "long-election"
 				}
+				if i%4 == 3 {
+					c.S["shape"] = "bare-supermajority"
+				}
 				cs = append(cs, c)
 			}
 			// dedicated histories: a second validator-set change committed around the
